@@ -877,12 +877,22 @@ impl Session {
       }
     }
 
-    for (sig, count) in &excluded {
-      let description = self.known.lookup(&self.args.id, sig).unwrap_or("");
-      println!(
-        "KNOWN-FINDING: property={} sig={sig} {description} (excluded {count} generated cases)",
-        self.args.id
-      );
+    // every listed finding of this property is announced, with how often
+    // this run met (and excluded) it
+    if self.args.replay.is_none() {
+      for (property, sig, description) in &self.known.known {
+        if property != &self.args.id {
+          continue;
+        }
+        match excluded.get(sig) {
+          Some(count) => println!(
+            "KNOWN-FINDING: property={property} sig={sig} {description} (excluded {count} generated cases)"
+          ),
+          None => println!(
+            "KNOWN-FINDING: property={property} sig={sig} {description} (not met by this run's cases)"
+          ),
+        }
+      }
     }
 
     let mut coverage = serde_json::Map::new();
